@@ -116,6 +116,22 @@ register(Obligation("verif.aggregator.Quantile.__init__#POST:level-within-[0,1]"
 
 
 # ------------------------------------------------------------------ trailing-window pre-aggregation
+class ProbeAgg(DualAgg):
+    """the aggregator handed to preaggregate: uninterpreted under shadow execution; in concrete runs an interpretation that
+    shows which elements it was given (median + 1000 * number of values + 10^6 * number of missing values), so that a window
+    that is off by one element, or a value passed through without being aggregated, changes the result"""
+    def __init__(self):
+        def real(array, axis=None):
+            a = _np.asarray(array, float)
+            with _np.errstate(all="ignore"):
+                import warnings
+                with warnings.catch_warnings():
+                    warnings.simplefilter("ignore")
+                    med = _np.nan_to_num(_np.nanmedian(a, axis=axis))
+            return med + 1000.0 * _np.sum(~_np.isnan(a), axis=axis) + 1e6 * _np.sum(_np.isnan(a), axis=axis)
+        self.real = real
+
+
 def _preagg(which):
     fn = getattr(verif.data, "preaggregate_" + which)
     dim = 1 if which == "leadtime" else 0
@@ -127,7 +143,7 @@ def _preagg(which):
         G.assume_sorted(coords)
         h = G.num("h", integer=True, numpy=False, grid=[1, 2, 3, 6])
         G.assume(h > 0)
-        return Bag(x=x, x0=x.copy(), coords=coords, h=h, agg=DualAgg())
+        return Bag(x=x, x0=x.copy(), coords=coords, h=h, agg=ProbeAgg())
 
     def call(inp):
         return fn(inp.x, inp.coords, inp.agg, inp.h)
